@@ -62,6 +62,7 @@ def cases(tier):
                 out.append({"kind": "faces", "grid": sg})
                 out.append({"kind": "faces", "grid": dict(sg, scale=-30)})
         out.append({"kind": "labels", "cls": cls})
+        out.append({"kind": "NL_sweep", "cls": cls})
         for other in U.CLASSES:
             out.append({"kind": "two_meshes", "cls": cls, "other": other})
     return out
@@ -262,6 +263,45 @@ def run_case(case):
         fc = [np.arange(n + 1) * (U.length(kd, n) / n) for kd, n in zip(kinds, shape)]
         _check_mesh(cls, mesh, fc, res, "%s(np.int64 N=%s)" % (cls, shape), exact_faces=False)
         res["sample"] = {"cls": cls, "shape": shape}
+    elif k == "NL_sweep":
+        # the (N, L) form for every N up to 300 along one axis (the others 2 cells) and a spread of lengths: N cells, N+1 faces
+        # from 0 to L, equal sizes - whatever N*(L/N) and L/(L/N) round to
+        cls = case["cls"]
+        kinds = U.AXES[cls]
+        d = len(kinds)
+        F = res["findings"]
+        Lsets = {"lin": [1.0, 2.0, 10.0, 100.0, 0.75, 1e-3, 2.0 * math.pi, 1.0 / 3.0], "rad": [1.0, 2.0, 10.0, 100.0, 0.75, 1e-3, 2.0 * math.pi, 1.0 / 3.0],
+                 "azi": [2.0 * math.pi, 1.0, math.pi / 3.0], "pol": [math.pi, 1.0, math.pi / 2.0]}
+        seen = set()
+        for ax in range(d):
+            for L in Lsets[kinds[ax]]:
+                for N in range(1, 301):
+                    shape = [2] * d
+                    shape[ax] = N
+                    Ls = [U.length(kd, 2) for kd in kinds]
+                    Ls[ax] = L
+                    try:
+                        mesh = getattr(pf, cls)(*shape, *Ls)
+                        f = np.asarray(getattr(mesh.facecenters, ("_x", "_y", "_z")[ax]), dtype=float)
+                        c = np.asarray(getattr(mesh.cellcenters, ("_x", "_y", "_z")[ax]), dtype=float)
+                        sz = np.asarray(getattr(mesh.cellsize, ("_x", "_y", "_z")[ax]), dtype=float)
+                        V = np.asarray(mesh.cellvolume)
+                        ok = (list(int(x) for x in mesh.dims) == shape and f.shape == (N + 1,) and c.shape == (N,) and sz.shape == (N + 2,)
+                              and V.shape == tuple(shape) and abs(f[0]) == 0.0 and abs(f[-1] - L) <= 8 * EPS * L
+                              and np.all(np.abs(np.diff(f) - L / N) <= 8 * EPS * L) and np.all(np.abs(sz - L / N) <= 8 * EPS * L)
+                              and np.all(np.abs(c - 0.5 * (f[1:] + f[:-1])) <= 8 * EPS * L))
+                        what = "faces %s, centres %s, sizes %s, volumes %s, last face %r" % (f.shape, c.shape, sz.shape, V.shape, float(f[-1]) if f.size else None)
+                    except Exception as e:  # noqa: BLE001
+                        ok, what = False, "raises %s: %s" % (type(e).__name__, str(e)[:80])
+                    res["evals"] += 1
+                    res["nontrivial"] += 1
+                    if not ok:
+                        key = "C10:NL_sweep:%s:axis=%d" % (cls, ax)
+                        if key not in seen:
+                            seen.add(key)
+                            F.append({"key": key, "msg": "%s(N=%s, L=%s): the (N, L) form does not give N cells of size L/N between N+1 faces from 0 to L (%s)"
+                                                         % (cls, shape, Ls, what), "detail": {"cls": cls, "shape": shape, "L": Ls}})
+        res["sample"] = {"cls": cls, "N": "1..300"}
     elif k == "two_meshes":
         # a grid keeps its geometry and its labels when grids of other classes are built before and after it
         cls, other = case["cls"], case["other"]
